@@ -42,6 +42,7 @@ HOLDER OR OTHER PARTY HAS BEEN ADVISED OF THE POSSIBILITY OF SUCH DAMAGES.
 #include <string>
 #include <memory>
 #include <mutex>
+#include <type_traits>
 
 #include <Poco/DateTime.h>
 #include <Poco/Net/SocketAddress.h>
@@ -625,16 +626,17 @@ inline bool get_value(const std::string& source)
 template<typename T>
 T fast_atoi(const char *str, const char term='\0')
 {
-	T retval(0);
+	using U = typename std::make_unsigned<T>::type;	// accumulate unsigned: wraps, never overflows or shifts a negative value
+	U retval(0);
 	if (*str == '-' && term != '-')	// negative value: accumulate downwards so the minimum value does not overflow
 	{
 		for (++str; *str != term; ++str)
-			retval = retval * 10 - (*str - '0');
-		return retval;
+			retval = static_cast<U>(retval * 10 - static_cast<U>(*str - '0'));
+		return static_cast<T>(retval);
 	}
 	for (; *str != term; ++str)
-		retval = (retval << 3) + (retval << 1) + (*str - '0');
-	return retval;
+		retval = static_cast<U>((retval << 3) + (retval << 1) + static_cast<U>(*str - '0'));
+	return static_cast<T>(retval);
 }
 
 //----------------------------------------------------------------------------------------
